@@ -616,3 +616,54 @@ def a19b(P, E):
                   "error() and complete() each use their own test-and-set (%s vs %s): they do not exclude each other"
                   % (arb_cells["error"], arb_cells["complete"]))
     return r
+
+
+# --------------------------------------------------------------------------- J8 / J9 (C12 two-step windows)
+
+def j_windows(P, E):
+    """A producer's {record, broadcast} and a late subscriber's {hand-over of the recorded state,
+    attach to the live subject} must each be one critical section of the history lock; otherwise a
+    subscriber arriving in the window gets an item twice (ReplaySubject) or misses it (BehaviorSubject).
+    Necessary structural condition checked: the guard of the state cell is live at the broadcast call
+    (producer side) and at the attach call (subscriber side)."""
+    r = RuleResult("J8", "record+broadcast and hand-over+attach of Behavior/Replay subjects are single critical sections")
+    for owner, cell in (("subjects::replay_subject::ReplaySubject", "items"),
+                        ("subjects::behavior_subject::BehaviorSubject", None)):
+        # producer side
+        mb = P.body(owner + "::next")
+        if mb is None:
+            r.error("anchor missing: %s::next" % owner)
+        else:
+            acqs, held, _ = mb.guards()
+            rec = {bb for bb, a in acqs.items() if a["mode"] in ("W", "M") and any(rk == "param" and rd == 1 for (rk, rd, _) in a["cell"])}
+            bc = [c for c in mb.calls if c.path == SUBJ + "::next"]
+            r.instance((owner + "::next", "record+broadcast"), True, "state writes %s, broadcast %s" % (sorted(rec), [c.bb for c in bc]))
+            for c in bc:
+                if not (held.get(c.bb, set()) & rec):
+                    r.violate((owner + "::next", "record and broadcast are two steps"),
+                              "the item is recorded under the state lock and broadcast after releasing it: a subscriber that "
+                              "attaches and is handed the recorded state in between receives the item twice (history) or, for a "
+                              "value subject, can miss a push that lands between its hand-over and its attach", body=mb, line=c.line)
+        # subscriber side
+        src = source_closure_of(P, owner + "::observable")
+        if src is None:
+            r.error("anchor missing: %s::observable source closure" % owner)
+            continue
+        bodies = [src] + [P.bodies[cl] for c in src.calls if atom(c) == "ready_set_go" for cl in [c.arg_closure(0)] if cl in P.bodies]
+        attach = [(b, c) for b in [src] for c in b.calls if atom(c) in ("subscribe", "ready_set_go")]
+        state_acq = []
+        for b in bodies:
+            acqs, held, _ = b.guards()
+            for bb, a in acqs.items():
+                state_acq.append((b, bb))
+        r.instance((owner + "::observable", "hand-over+attach"), True, "state acquisitions %d, attach calls %s" % (len(state_acq), [c.bb for _, c in attach]))
+        ok = False
+        for (b, c) in attach:
+            acqs, held, _ = b.guards()
+            if held.get(c.bb, set()):
+                ok = True
+        if attach and not ok:
+            r.violate((owner + "::observable", "hand-over and attach are two steps"),
+                      "the late subscriber is handed the recorded state and attached to the live subject in two separate steps "
+                      "(no state guard is live at the attach): a push landing in between is delivered twice or lost", body=src)
+    return r
